@@ -2,6 +2,8 @@
 from __future__ import annotations
 
 import html
+import os
+import re
 import typing
 
 from vf import common, driver, mimeref, parsers, reqs, trees, validate
@@ -177,6 +179,13 @@ def build_cases(rng, sizes, full: bool) -> typing.Tuple[Tree, typing.List[Case]]
         path = rng.choice([b"", b"docs/"]) + (nm + ext).encode()
         t.file(path, data)
         cases.append(Case(path, data, mimeref.mime_for_ext(ext), data, ("content:binary", "name:urlish", "ext:" + ext)))
+    # paths near the limits: five levels of 240-byte names, a 255-byte name, a path whose percent-encoded form triples
+    deep = b"/".join(bytes([97 + k]) * 240 for k in range(5))
+    for path in (deep + b"/doc.pdf", b"N" * 251 + b".gif", b"/".join([("\u00e9" * 120).encode()] * 2) + b"/doc.png"):
+        data = trees.gen_content(rng, 3000, "binary")
+        t.file(path, data)
+        ext = "." + path.rsplit(b".", 1)[-1].decode()
+        cases.append(Case(path, data, mimeref.mime_for_ext(ext), data, ("content:binary", "name:long", "ext:" + ext)))
     # HTML documents (title handler) and encoded files
     for j, title in enumerate(["T", None, "a <b> & c"]):
         data = trees.html_doc(title) + trees.gen_content(rng, 5000 * j, "text")
@@ -204,6 +213,44 @@ def build_cases(rng, sizes, full: bool) -> typing.Tuple[Tree, typing.List[Case]]
     return t, cases
 
 
+def rewritten_documents(chk: Check, site: driver.Site, root: str) -> None:
+    """A document is fetched, rewritten with another size, and fetched again at once (same process): length
+    header, body and advertised size describe the file as it is now."""
+    path = os.path.join(root, "rewritten.txt")
+    sizes = [12, 10248, 1, 70000, 4096, 0, 4097]
+    prev = None
+    for k, n in enumerate(sizes):
+        data = (b"version %d " % k) * (n // 10 + 1)
+        data = data[:n]
+        with open(path, "wb") as fp:
+            fp.write(data)
+        for view in ("gopherp+", "http", "gopher", "gopherps+", "gemini", "gopherp!"):
+            req, tls = reqs.render(view, b"/rewritten.txt")
+            r = site.request(req, tls=tls)
+            chk.count("fetches_of_a_just_rewritten_document")
+            v = validate.validate(r, req)
+            sample = {"view": view, "size_now": n, "size_before": prev, "reply_head": r.data[:80], "reason": v.reason}
+            if not v.ok:
+                chk.witness("C04/rewritten-document:malformed-reply:%s" % reqs.VIEWS[view][0], sample)
+                return
+            if view == "gopherp!":
+                m = re.search(rb": <(\d+)k>", r.data)
+                if m and int(m.group(1)) != n // 1024:
+                    chk.witness("C04/rewritten-document:stale-size-advertised", dict(sample, advertised_k=int(m.group(1))))
+                    return
+                continue
+            body = r.data if view == "gopher" else v.parsed["body"]
+            if body != data:
+                chk.witness("C04/rewritten-document:body-differs:%s" % reqs.VIEWS[view][0], dict(sample, got_len=len(body)))
+                return
+            if reqs.VIEWS[view][0] == "gopherp" and v.parsed["length"] not in (len(data), -2):
+                chk.witness("C04/rewritten-document:gopherplus-length", dict(sample, length=v.parsed["length"]))
+                return
+        prev = n
+        chk.case(("rewritten", n), None)
+    os.unlink(path)
+
+
 def run(chk: Check, sizes, nreal: int) -> None:
     with Scratch("c04") as sc:
         # log method: the request line (whatever bytes the name holds) is logged before anything is written
@@ -226,6 +273,7 @@ def run(chk: Check, sizes, nreal: int) -> None:
                         for view in ("http", "https", "wap", "gemini", "spartan", "httphead"):
                             check_doc(chk, site, c, view, minimal=True)
                             chk.count("fetches_with_minimal_escaping")
+                rewritten_documents(chk, site, root)
                 # genuine TLS for a subset: every size class once per TLS view
                 seen = set()
                 for c in cases:
